@@ -25,7 +25,7 @@ OUTSIDE = [
 BOUNDS = {
     "quick": "whole runs: n<=5 (symbolic), b<=n, drop_last, drop_last_batch_size in {None,b,2b,3b}, epochs<=3 | updates<=7 | samples<=12, 0..2 configs with symbolic intervals; "
              "inductive epoch step from any boundary E<=1000 with unbounded budget, geometry enumerated n<=5",
-    "thorough": "whole runs: all geometries n<=7 without configs, 50 sampled geometries with one config, 24 with two; epochs<=4 | updates<=10 | samples<=20; inductive epoch step from any boundary E<=1000 with unbounded budget, all geometries n<=7",
+    "thorough": "whole runs: symbolic geometry n<=5; all geometries n<=7 without configs, 30 sampled geometries with one config, 12 with two; epochs<=3 | updates<=8 | samples<=14; inductive epoch step from any boundary E<=1000 with unbounded budget, all geometries n<=7",
 }
 
 CFG_PARAMS = ["ene", "enu", "ens", "m", "cbs", "ex"]
@@ -108,7 +108,7 @@ def geometries(nmax):
     return out
 
 
-VMAX = {"quick": {"epochs": 3, "updates": 7, "samples": 12}, "thorough": {"epochs": 4, "updates": 10, "samples": 20}}
+VMAX = {"quick": {"epochs": 3, "updates": 7, "samples": 12}, "thorough": {"epochs": 3, "updates": 8, "samples": 14}}
 
 
 def conditions(tier, rng):
@@ -116,7 +116,7 @@ def conditions(tier, rng):
     conds = []
     to = 600 if tier == "quick" else 1800
     # symbolic geometry, whole run, no configs
-    nsym = 4 if tier == "quick" else 6
+    nsym = 4 if tier == "quick" else 5
     for kind in ("epochs", "updates", "samples"):
         v = {"epochs": 3, "updates": 6, "samples": 9}[kind] if tier == "quick" else VMAX[tier][kind]
         conds.append(whole_cond("C04", H, kind, [], nsym, v, False, to))
@@ -126,13 +126,13 @@ def conditions(tier, rng):
         for kind in ("epochs", "updates", "samples"):
             v = VMAX[tier][kind]
             conds.append(whole_geo_cond(H, g, kind, [], v, True, to))
-    sub = rng.sample(geos, 50) if tier == "thorough" else rng.sample(geos, 10)
+    sub = rng.sample(geos, 30) if tier == "thorough" else rng.sample(geos, 10)
     for g in sub:
         for kind in ("epochs", "updates", "samples"):
             v = VMAX[tier][kind]
             for masks in (["e"], ["u"], ["s"]):
                 conds.append(whole_geo_cond(H, g, kind, masks, v, False, to, m_max=2, cbs_max=2, ens_max=6 if tier == "quick" else 9))
-    for g in (rng.sample(geos, 24) if tier == "thorough" else rng.sample(geos, 4)):
+    for g in (rng.sample(geos, 12) if tier == "thorough" else rng.sample(geos, 4)):
         for kind in ("epochs", "updates", "samples"):
             v = VMAX[tier][kind]
             conds.append(whole_geo_cond(H, g, kind, ["u", "e"], v, True, to, m_max=2, cbs_max=0, ex_max=0, ene_max=2, enu_max=2))
